@@ -193,7 +193,9 @@ def iexpr(e):
         return iexpr(e[1]).method(METH[k], iexpr(e[2]))
     if k == "supp":
         types = tuple(t for t, on in ((iteration.Engine, e[1]), (sql.Engine, e[2])) if on)
-        return E.function("vid", iexpr(e[3]), supporting_engine_types=types)
+        # the function only EXISTS in the engines said to support it (so accepting it elsewhere cannot execute)
+        name = "vid" if (e[1] and e[2]) or not (e[1] or e[2]) else ("vid_it" if e[1] else "vid_sql")
+        return E.function(name, iexpr(e[3]), supporting_engine_types=types)
     raise ValueError(e)
 
 
@@ -254,7 +256,7 @@ def dexpr(x):
     if isinstance(x, dr.ColumnLiteral):
         return ("lit", x.value)
     if isinstance(x, dr.ColumnFunction):
-        if x.name == "vid":
+        if x.name in ("vid", "vid_it", "vid_sql"):
             st = x.supporting_engine_types or ()
             return ("supp", iteration.Engine in st, sql.Engine in st, dexpr(x.args[0]))
         k = RMETH[x.name]
